@@ -172,12 +172,16 @@ def render(spec):
 
     if not spec.get("shifts_after"):
         out += _shifts()
+    if spec.get("tasks_first"):   # the task tree written before the resources it allocates
+        for t in spec.get("tasks") or []:
+            out += _task(t)
     for r in spec.get("resources") or []:
         out += _resource(r)
     if spec.get("shifts_after"):   # declared only after the resources that refer to them
         out += _shifts()
-    for t in spec.get("tasks") or []:
-        out += _task(t)
+    if not spec.get("tasks_first"):
+        for t in spec.get("tasks") or []:
+            out += _task(t)
     out += list(spec.get("reports") or [])
     return "\n".join(out) + "\n"
 
